@@ -622,7 +622,53 @@ def _put_solve(i):
     return is_sat, grid_got(i["h"], i["w"], arr)
 
 
-shading("putteria", _rooms_gen(4), _put_valid, _put_solve)
+def _put_gen(rng, big):
+    # boards up to 6x6: the truth is enumerated room by room (one number cell per room), not over all cell sets, so tall and wide
+    # boards - where equal-sized rooms meet again far apart in a row or column - are affordable
+    h, w = rng.choice(SHAPES + [(4, 1), (5, 1), (1, 6), (6, 1), (5, 2), (2, 5), (4, 3), (6, 2), (2, 6), (4, 4), (5, 3), (3, 5)] + ([(5, 5), (6, 4), (4, 6), (6, 6)] if big else []))
+    n = h * w
+    k = rng.randint(1, max(1, min(8, n // 2)))
+    inst = {"h": h, "w": w, "rooms": randrooms(rng, h, w, k)}
+    if rng.random() < 0.5 and n >= 6:
+        # many small rooms (sizes 1-3, hence many of equal size): the same-number rule is what decides
+        inst["rooms"] = randrooms(rng, h, w, rng.randint(max(2, n // 3), max(2, n // 2)))
+    return inst
+
+
+def _put_truth(i):
+    h, w = i["h"], i["w"]
+    rooms = sorted(tup(i["rooms"]), key=len)
+    size = {c: len(rm) for rm in rooms for c in rm}
+    sols = []
+    chosen = []
+
+    def ok(c):
+        for q in chosen:
+            if abs(q[0] - c[0]) + abs(q[1] - c[1]) == 1:
+                return False
+            if size[q] == size[c] and (q[0] == c[0] or q[1] == c[1]):
+                return False
+        return True
+
+    def rec(k):
+        if len(sols) > 20000:
+            return
+        if k == len(rooms):
+            sols.append(set_sol(h, w, set(chosen)))
+            return
+        for c in rooms[k]:
+            if ok(c):
+                chosen.append(c)
+                rec(k + 1)
+                chosen.pop()
+
+    rec(0)
+    if len(sols) > 20000:
+        return None
+    return {"std": sols}
+
+
+register("putteria", _put_gen, _put_truth, _put_solve)
 
 
 # ---- nurimisaki
